@@ -57,12 +57,44 @@ def new_workdir():
     return pathlib.Path(tempfile.mkdtemp(prefix="cverif-%d-" % os.getpid(), dir=SHM))
 
 
-def corrupt_archive(src, dst, how, r_seed):
+def corrupt_archive(src, dst, how, r_seed, root=None):
     """single corruptions of an archive (DESIGN.md C12)"""
     import random
 
     r = random.Random(r_seed)
     kind = how["kind"]
+    if kind in ("escape_dotdot", "escape_symlink"):
+        # a hand-made / hostile archive: the genuine members plus one whose name leads out of the staging
+        # directory (which lives inside cond-out), aimed at a file of an already recorded version
+        import io as _io
+
+        victim_dir, victim_file = "no-such.task.1", "planted.txt"
+        rows_ = sim.read_rows(root) if root is not None else None
+        if isinstance(rows_, list) and rows_:
+            from . import model as _M5
+
+            rr = rows_[how.get("idx", 0) % len(rows_)]
+            victim_dir = _M5.out_dir_rel(rr[0], rr[1])
+            files = sorted(p_.name for p_ in (pathlib.Path(root) / "cond-out" / victim_dir).glob("*") if p_.is_file())
+            if files:
+                victim_file = files[0]
+        with tarfile.open(src, "r:gz") as tin, tarfile.open(dst, "w:gz") as tout:
+            for m in tin.getmembers():
+                tout.addfile(m, tin.extractfile(m) if m.isfile() else None)
+            data = b"written by a member that escaped the staging directory"
+            if kind == "escape_dotdot":
+                ti = tarfile.TarInfo("../%s/%s" % (victim_dir, victim_file))
+                ti.size = len(data)
+                tout.addfile(ti, _io.BytesIO(data))
+            else:
+                ti = tarfile.TarInfo("extra-link")
+                ti.type = tarfile.SYMTYPE
+                ti.linkname = "../" + victim_dir
+                tout.addfile(ti)
+                ti = tarfile.TarInfo("extra-link/" + victim_file)
+                ti.size = len(data)
+                tout.addfile(ti, _io.BytesIO(data))
+        return
     if kind == "truncate":
         # The tar stream is cut, inside a valid gzip container.  (Cutting the compressed bytes makes the
         # real tar race with its gzip child - how many members it extracts before noticing differs from
@@ -217,7 +249,7 @@ def execute(scn, seed, plans=None, snapshots=True, keep=False, stop_after=None, 
                 if op.get("corrupt"):
                     dst = arch / ("%s-corrupt-%d.tar.gz" % (op["archive"], i))
                     if src.exists():
-                        corrupt_archive(src, dst, op["corrupt"], seed + i)
+                        corrupt_archive(src, dst, op["corrupt"], seed + i, root)
                         world.count("fault.archive_" + op["corrupt"]["kind"])
                     src = dst
                 op["archive_path"] = str(src)
